@@ -82,7 +82,7 @@ def run(tier: str, seed: int, replay=None) -> int:
     n = 1 if tier == "quick" else 12
     if replay and replay.get("meta") is not None:
         hists, metas = [], [replay["meta"]]
-    elif replay:
+    elif replay and replay.get("case") is not None:
         hists, metas = [replay["case"]], []
     else:
         r1, r2 = rng.fork(1), rng.fork(2)
@@ -114,6 +114,6 @@ def run(tier: str, seed: int, replay=None) -> int:
             diff_fields += 1
     rep.extra["meta"] = {"cases": len(metas), "with_relations": diff_fields}
     rep.samples = [{"case": h} for h in hists[-3:]] + [{"meta": m} for m in metas[:2]]
-    if not replay:
+    if not (replay and (replay.get("case") is not None or replay.get("meta") is not None)):
         c13.replay_findings(rep, PROP, model_ok, {})
     return rep.finish()
